@@ -126,6 +126,11 @@ CURATED += [
     ('far_call_then_bwd_br', ['call L9', 'L1:', G(0), 'bnez x8 L1', 'j L1', G(1), 'L9:', F4]),
     ('far_tail_then_bwd_j', ['mv x8 x9', 'tail L9', 'L1:', FC, G(0), 'j L1', 'beq x9 x0 L1', G(1), 'L9:', F4]),
     ('labelref_then_regonly', ['L0:', 'bne x8 x9 L0', 'sub x8 x8 x9', 'lui x5 %hi(L0)', 'and x8 x8 x9', 'lw x12 x0 %lo(L0)', 'slli x9 x9 2', 'dw L0', 'add x8 x8 x9', 'j L0', 'ebreak']),
+    ('hilo_label_bwd_shrink', ['li x7 K0', G(0), 'L1:', 'dw 5', 'lui x5 %hi(L1)', 'addi x5 x5 %lo(L1)', 'lw x6 x5 %lo(L1)', 'li x6 L1']),
+    ('hilo_position_bwd_shrink', ['call L9', G(0), 'L1:', 'dd 1', 'lui x8 %hi(%position(L1, BASE))', 'addi x8 x8 %lo(%position(L1, BASE))', FC, G(1), 'L9:', F4]),
+    ('same_text_twice', ['auipc x5 %hi(%offset(L1))', 'addi x5 x5 %lo(%offset(L1))', F4, 'auipc x6 %hi(%offset(L1))', 'addi x6 x6 %lo(%offset(L1))', 'dw %lo(%offset(L1))', G(0), 'L1:', F4, 'dw %lo(%offset(L1))', 'dw %lo(%offset(L1))']),
+    ('two_far_calls_same_label', ['call L1', FC, 'call L1', 'tail L1', G(0), 'L1:', F4, 'call L1']),
+    ('const_label_clash', ['K9 = 4', 'addi x9 x9 K9', 'lw x9 K9(x2)', 'li x5 K9', 'dw K9', G(0), 'K9:', F4, 'j L1', 'L1:']),
     ('position_wide', ['dd %position(L1, WIDE)', 'pack <q %position(L1, WIDE)', 'li x7 %position(L1, WIDE)', G(0), 'L1:', F4, 'pack >q %position(L1, WIDE)']),
     ('aligns_decreasing', ['dh 1', 'align 4', 'align 3', 'L1:', 'db 1', 'align 8', 'align 6', 'L2:', 'dw L1', 'align 6', 'align 4', 'L3:', 'dw L2', 'dw L3']),
     ('label_between_aligns', ['dh 1', 'align 4', 'L1:', 'align 8', 'L2:', 'dw L1', 'dw L2']),
